@@ -90,7 +90,7 @@ Theorem two_writes_in_order names this st o1 i1 o2 i2 n1 n2 st' :
   run_handler names this st (CStmt (SBlock [SExpr (EAssign (EMember (EIdent o1) "i") (EInt n1)); SExpr (EAssign (EMember (EIdent o2) "i") (EInt n2))])) [] = Def st' ->
   exists w1 w2, trace st' = ESet i2 "i" w2 :: ESet i1 "i" w1 :: trace st.
 Proof.
-  intros H1 H2. unfold run_handler. cbn [exec eval lookup]. rewrite H1. cbn [rbind].
+  intros H1 H2. unfold run_handler. cbn [exec run_seq eval lookup]. rewrite H1. cbn [rbind].
   destruct (write_prop st i1 "i" (VL (Z.of_N n1))) as [s1| |] eqn:W1; cbn [rbind]; try discriminate.
   cbn [eval lookup]. rewrite H2. cbn [rbind].
   destruct (write_prop s1 i2 "i" (VL (Z.of_N n2))) as [s2| |] eqn:W2; cbn [rbind]; try discriminate.
